@@ -782,5 +782,12 @@ pub fn check_fixture<C: Cv>(fx: &Value) -> Value {
         Err(_) => false,
     };
     let sizes_ok = fx["ptlen"].as_u64() == Some(ser_c(&C::G::generator()).len() as u64) && fx["sclen"].as_u64() == Some(ser_c(&Fr::<C>::zero()).len() as u64);
-    json!({"id": fx["id"], "curve": C::NAME, "decode": dec, "vres": vo.res, "expect": fx["vres"], "reencode": reencode, "sizes_ok": sizes_ok})
+    // a recorded proof with the identity in a mandatory position (an honest T_k on a 7-element group): its recorded rejection is not a statement
+    // about a wrong statement
+    let identity_in_proof = match ProofM::<C::G>::deserialize_with_mode(&proof[..], Compress::Yes, Validate::No) {
+        Ok(m) => [0usize, 1, 2, 6, 7, 8, 9, 10].iter().any(|i| m.pts[*i].is_zero()) || m.l_vec.iter().any(|p| p.is_zero()) || m.r_vec.iter().any(|p| p.is_zero()),
+        Err(_) => false,
+    };
+    json!({"id": fx["id"], "curve": C::NAME, "decode": dec, "vres": vo.res, "expect": fx["vres"], "reencode": reencode, "sizes_ok": sizes_ok,
+           "identity_in_proof": identity_in_proof})
 }
